@@ -515,6 +515,15 @@ class Explorer:
                 if any(v is True for v in vals):
                     return True
                 return False if all(v is False for v in vals) else None
+            if isinstance(e, ast.Call) and isinstance(e.func, ast.Name) and e.func.id in ("any", "all") and len(e.args) == 1 and not e.keywords and isinstance(e.args[0], (ast.Tuple, ast.List)) and not any(isinstance(x, ast.Starred) for x in e.args[0].elts):
+                vals = [tv(x) for x in e.args[0].elts]
+                if e.func.id == "all":
+                    if any(v is False for v in vals):
+                        return False
+                    return True if all(v is True for v in vals) else None
+                if any(v is True for v in vals):
+                    return True
+                return False if all(v is False for v in vals) else None
             if isinstance(e, ast.Compare) and len(e.ops) == 1 and isinstance(e.ops[0], (ast.In, ast.NotIn)) and isinstance(e.left, ast.Constant):
                 c = e.comparators[0]
                 keys = None
@@ -1468,4 +1477,24 @@ def explore_with_nested(prog: Program, fi: FuncInfo, _depth: int = 0, **kw) -> l
                     if inner is not None:
                         b = {k: v for k, v in (ev.store or {}).items() if k not in inner.param_names()}
                         out.extend(explore_with_nested(prog, inner, _depth + 1, binding=b, **kw))
+    return out
+
+
+def outcomes_under(paths: list[SymPath], env: dict) -> set:
+    """outcomes ('return' / 'raise' / 'fall') of the paths whose decisions are consistent with a concrete
+    environment (finite-domain folding of the path conditions with effects.ceval; a decision that does not fold is
+    taken as consistent)"""
+    out = set()
+    for p in paths:
+        ok = True
+        for t, pol in p.literals():
+            try:
+                v = bool(ceval(t, env))
+            except Exception:  # noqa: BLE001
+                continue
+            if v != pol:
+                ok = False
+                break
+        if ok:
+            out.add("return" if p.outcome == "fall" else p.outcome)
     return out
